@@ -10,7 +10,7 @@ import re
 
 import z3
 
-from .core import (Agg, ByteArr, BytesRef, Cell, FnVal, ForkRequest, Loc, MapVal, Obj, PathEnd, Ptr, StrBuf, StrRef, TailCall,
+from .core import (Agg, ByteArr, BytesRef, Cell, Cont, FnVal, ForkRequest, Loc, MapVal, Obj, PathEnd, Ptr, StrBuf, StrRef, TailCall,
                    Unsupported, VecVal, b_and, b_not, b_or, bv, copy_value, is_sym, mask, simp, v_eq, zbool)
 
 REG = []  # (compiled regex on def-or-name, fn, label)
@@ -1061,13 +1061,85 @@ def find_next_instance(m, fn, iter_ty_name, depth=6):
     return None
 
 
-def drain_iterator(m, st, info, it_value, it_ty, on_item, on_done):
+def _drain_item(m, data, x):
+    mode = data["mode"]
+    if mode in ("vec_from", "pending"):
+        data["acc"].items.append(x)
+    elif mode == "vec_extend":
+        vec_of(m, data["acc"]).items.append(x)
+    elif mode == "string_from":
+        if isinstance(x, (StrRef, StrBuf)):
+            data["acc"].chars.extend(as_str(m, x))
+        else:
+            data["acc"].chars.append(x)
+    elif mode in ("map_extend", "set_extend"):
+        mp = map_of(m, data["acc"])
+        k, v = (x, unit()) if mode == "set_extend" else (x.f[0], x.f[1])
+        for e in mp.entries:
+            eq = keys_equal(m, e[0], k)
+            if eq is True:
+                e[1] = v
+                return
+            if eq is not False:
+                raise Unsupported("symbolic duplicate keys in HashMap::extend")
+        mp.entries.append([k, v])
+    else:
+        raise Unsupported("drain mode " + mode)
+
+
+def _drain_done(m, data):
+    mode = data["mode"]
+    if mode in ("vec_from", "string_from"):
+        return data["acc"]
+    if mode in ("vec_extend", "map_extend", "set_extend"):
+        return unit()
+    if mode == "pending":
+        out = MapVal()
+        is_set = data["is_set"]
+        for x in data["acc"].items:
+            k, v = (x, unit()) if is_set else (x.f[0], x.f[1])
+            dup = False
+            for e in out.entries:
+                eq = keys_equal(m, e[0], k)
+                if eq is True:
+                    e[1] = v
+                    dup = True
+                    break
+                if eq is not False:
+                    raise Unsupported("symbolic duplicate keys in HashMap::from_iter")
+            if not dup:
+                out.entries.append([k, v])
+        return out
+    raise Unsupported("drain mode " + mode)
+
+
+def _drain_next(m, st, opt, data):
+    if not isinstance(opt, Agg):
+        raise Unsupported("iterator next returned %r" % (opt,))
+    if len(opt.f) == 0:
+        return _drain_done(m, data)
+    _drain_item(m, data, opt.f[0])
+    return TailCall(data["nxt"], [data["ptr"]], Cont(_drain_next, data))
+
+
+def _drain_start(m, st, itv, data):
+    if isinstance(itv, VecVal):
+        for x in itv.items:
+            _drain_item(m, data, x)
+        return _drain_done(m, data)
+    data["ptr"].cell.v = itv
+    return TailCall(data["nxt"], [data["ptr"]], Cont(_drain_next, data))
+
+
+def drain_iterator(m, st, info, it_value, it_ty, mode, acc, is_set=False):
     """drive the iterator argument of a summarised from_iter/extend with the
-    real (MIR) `into_iter` / `next` that mirdump pre-resolved for it."""
+    real (MIR) `into_iter` / `next` that mirdump pre-resolved for it. The
+    continuation is data-driven (Cont) so that it survives state forks."""
+    data = {"mode": mode, "acc": acc, "is_set": is_set, "nxt": None, "ptr": None}
     if isinstance(it_value, VecVal):
         for x in it_value.items:
-            on_item(x)
-        return on_done()
+            _drain_item(m, data, x)
+        return _drain_done(m, data)
     fn = m.p.fns[info["fn"]]
     nxt = fn.get("iter_next")
     into = fn.get("into_iter")
@@ -1077,29 +1149,12 @@ def drain_iterator(m, st, info, it_value, it_ty, on_item, on_done):
         into = None
         if nxt is None:
             raise Unsupported("cannot locate Iterator::next for " + tname)
-    cell = Cell(None)
-    ptr = Ptr(cell, ())
-
-    def then(mach, st2, opt):
-        if not isinstance(opt, Agg):
-            raise Unsupported("iterator next returned %r" % (opt,))
-        if len(opt.f) == 0:
-            return on_done()
-        on_item(opt.f[0])
-        return TailCall(nxt, [ptr], then)
-
-    def start(mach, st2, itv):
-        if isinstance(itv, VecVal):
-            for x in itv.items:
-                on_item(x)
-            return on_done()
-        cell.v = itv
-        return TailCall(nxt, [ptr], then)
-
+    data["nxt"] = nxt
+    data["ptr"] = Ptr(Cell(None), ())
     if into is not None:
-        return TailCall(into, [it_value], start)
-    cell.v = it_value
-    return TailCall(nxt, [ptr], then)
+        return TailCall(into, [it_value], Cont(_drain_start, data))
+    data["ptr"].cell.v = it_value
+    return TailCall(nxt, [data["ptr"]], Cont(_drain_next, data))
 
 
 @summary(r"<std::vec::Vec<T> as std::iter::FromIterator<T>>::from_iter",
@@ -1108,9 +1163,8 @@ def s_vec_from_iter(m, st, info, args):
     it = args[0]
     if isinstance(it, VecVal):
         return it
-    out = VecVal()
     it_ty = m.p.fns[info["fn"]]["arg_tys"][0]
-    return drain_iterator(m, st, info, it, it_ty, out.items.append, lambda: out)
+    return drain_iterator(m, st, info, it, it_ty, "vec_from", VecVal())
 
 
 @summary(r"<std::vec::Vec<T, A> as std::iter::Extend<T>>::extend", r"<std::vec::Vec<T, A> as std::iter::Extend<&'a T>>::extend")
@@ -1121,23 +1175,15 @@ def s_vec_extend(m, st, info, args):
         v.items.extend(it.items)
         return unit()
     it_ty = m.p.fns[info["fn"]]["arg_tys"][1]
-    return drain_iterator(m, st, info, it, it_ty, v.items.append, unit)
+    return drain_iterator(m, st, info, it, it_ty, "vec_extend", vec_ptr(m, args[0]))
 
 
 @summary(r"<std::string::String as std::iter::FromIterator<char>>::from_iter",
          r"<std::string::String as std::iter::FromIterator<&'a str>>::from_iter",
          r"<std::string::String as std::iter::FromIterator<std::string::String>>::from_iter")
 def s_string_from_iter(m, st, info, args):
-    out = StrBuf()
     it_ty = m.p.fns[info["fn"]]["arg_tys"][0]
-
-    def add(x):
-        if isinstance(x, (StrRef, StrBuf)):
-            out.chars.extend(as_str(m, x))
-        else:
-            out.chars.append(x)
-
-    return drain_iterator(m, st, info, args[0], it_ty, add, lambda: out)
+    return drain_iterator(m, st, info, args[0], it_ty, "string_from", StrBuf())
 
 
 # ---------------------------------------------------------------------------
@@ -1429,54 +1475,18 @@ def s_map_iter_next(m, st, info, args):
 @summary(r"<std::collections::HashMap<K, V, S> as std::iter::FromIterator<\(K, V\)>>::from_iter",
          r"<std::collections::HashSet<T, S> as std::iter::FromIterator<T>>::from_iter")
 def s_map_from_iter(m, st, info, args):
-    out = MapVal()
     is_set = "HashSet" in info.get("def", "")
     it_ty = m.p.fns[info["fn"]]["arg_tys"][0]
-    pending = []
-
-    def add(x):
-        pending.append(x)
-
-    def done():
-        # insertion with symbolic key equality is done here, concretely when
-        # keys are concrete; symbolic duplicates are not merged (unsupported)
-        for x in pending:
-            k, v = (x, unit()) if is_set else (x.f[0], x.f[1])
-            dup = False
-            for e in out.entries:
-                eq = keys_equal(m, e[0], k)
-                if eq is True:
-                    e[1] = v
-                    dup = True
-                    break
-                if eq is not False:
-                    raise Unsupported("symbolic duplicate keys in HashMap::from_iter")
-            if not dup:
-                out.entries.append([k, v])
-        return out
-
-    return drain_iterator(m, st, info, args[0], it_ty, add, done)
+    return drain_iterator(m, st, info, args[0], it_ty, "pending", VecVal(), is_set=is_set)
 
 
 @summary(r"<std::collections::HashMap<K, V, S, A> as std::iter::Extend<\(K, V\)>>::extend",
          r"<std::collections::HashSet<T, S, A> as std::iter::Extend<T>>::extend")
 def s_map_extend(m, st, info, args):
-    mp = map_of(m, args[0])
     is_set = "HashSet" in info.get("def", "")
     it_ty = m.p.fns[info["fn"]]["arg_tys"][1]
-
-    def add(x):
-        k, v = (x, unit()) if is_set else (x.f[0], x.f[1])
-        for e in mp.entries:
-            eq = keys_equal(m, e[0], k)
-            if eq is True:
-                e[1] = v
-                return
-            if eq is not False:
-                raise Unsupported("symbolic duplicate keys in HashMap::extend")
-        mp.entries.append([k, v])
-
-    return drain_iterator(m, st, info, args[1], it_ty, add, unit)
+    p = m.unwrap_ptr(args[0])
+    return drain_iterator(m, st, info, args[1], it_ty, "set_extend" if is_set else "map_extend", p)
 
 
 def dig(v, cls, depth=8):
@@ -2032,6 +2042,8 @@ def _trim(m, s, pat, left, right):
     def matches(c):
         if pat == "ws":
             return s_is_whitespace(m, None, None, [c])
+        if isinstance(pat, VecVal):
+            return b_or(*[v_eq(c, x) for x in pat.items])
         return v_eq(c, pat)
     lo, hi = 0, len(s)
     if left:
@@ -2046,7 +2058,9 @@ def _trim(m, s, pat, left, right):
 @summary(r"core::str::<impl str>::trim_matches", r"core::str::<impl str>::trim_start_matches", r"core::str::<impl str>::trim_end_matches")
 def s_trim_matches(m, st, info, args):
     pat = args[1]
-    if not (isinstance(pat, int) or is_sym(pat)):
+    if isinstance(pat, Ptr):
+        pat = deref(m, pat)
+    if not (isinstance(pat, int) or is_sym(pat) or isinstance(pat, VecVal)):
         raise Unsupported("trim_matches with non-char pattern")
     d = info["def"]
     return _trim(m, as_str(m, args[0]), pat, "end" not in d, "start" not in d)
